@@ -1090,6 +1090,65 @@ pub fn scenario(rng: &mut Rng, id: usize) -> Option<Start> {
             let (q, _) = hemmed_in(rng, false)?;
             finish(rng, Start::plain(q, tag))
         }
+        18 if rng.chance(2, 5) => {
+            // sub-variant: the double push gives CHECK and capturing the checking pawn en passant is the only
+            // legal reply (a generator that loses that capture reports mate).  Found by search: white king on
+            // its fourth rank beside the push file, capturer on the fifth, black men around.
+            let tries = if cfg!(miri) { 2 } else { 4000 };
+            for _ in 0..tries {
+                let mut q = RPos::empty();
+                let g = rng.below(8) as i8;
+                let kf = g + *rng.pick(&[-1i8, 1]);
+                let f = g + *rng.pick(&[-1i8, 1]);
+                if kf < 0 || kf > 7 || f < 0 || f > 7 {
+                    continue;
+                }
+                q.sq[sqm(kf, 3) as usize] = pc(K, WHITE);
+                q.sq[sqm(f, 4) as usize] = pc(P, WHITE);
+                q.sq[sqm(g, 6) as usize] = pc(P, BLACK);
+                if rng.chance(1, 3) && f != 2 * g - f && 2 * g - f >= 0 && 2 * g - f < 8 {
+                    q.sq[sqm(2 * g - f, 4) as usize] = pc(P, WHITE);
+                }
+                let keep = bit(sqm(g, 5)) | bit(sqm(g, 4));
+                // black men near the king take its squares away and protect the pawn's landing square
+                for _ in 0..rng.range(3, 7) {
+                    let s = mk(kf + rng.range(0, 6) as i8 - 3, 3 + rng.range(0, 6) as i8 - 3);
+                    if let Some(s) = s {
+                        if q.sq[s as usize] == 0 && keep & bit(s) == 0 {
+                            let k = *rng.pick(&[Q, R, R, B, N, N, P]);
+                            let k = if k == P && (s >> 3 == 0 || s >> 3 == 7) { N } else { k };
+                            q.sq[s as usize] = pc(k, BLACK);
+                        }
+                    }
+                }
+                // own men beside the king block flight squares
+                for _ in 0..rng.below(3) {
+                    if let Some(s) = mk(kf + rng.range(0, 2) as i8 - 1, 3 + rng.range(0, 2) as i8 - 1) {
+                        if q.sq[s as usize] == 0 && keep & bit(s) == 0 {
+                            q.sq[s as usize] = pc(*rng.pick(&[P, P, N, B]), WHITE);
+                        }
+                    }
+                }
+                if !place_king_somewhere(rng, &mut q, BLACK, keep) {
+                    continue;
+                }
+                q.stm = BLACK;
+                let push = RMove::new(sqm(g, 6), sqm(g, 4), 0);
+                if !q.valid() || !q.is_legal(push) {
+                    continue;
+                }
+                let after = q.make(push);
+                if !after.in_check(WHITE) {
+                    continue;
+                }
+                let lm = after.legal_moves();
+                if lm.is_empty() || !lm.iter().all(|m| after.is_ep_capture(*m)) {
+                    continue;
+                }
+                return finish(rng, Start { pos: q, prelude: vec![push], tag });
+            }
+            None
+        }
         18 => {
             // the only legal move is an en-passant capture: a hemmed-in side with one blocked pawn on its
             // fifth rank; the opponent double-pushes beside it
